@@ -73,6 +73,10 @@ int parse_instruction_agc(AsmContext *asm_context, char *instr)
       {
         ignore_operand(asm_context);
         num = 0;
+
+        // Remember that the size of this instruction was picked without
+        // knowing the value of the operand.
+        asm_context->memory_write(asm_context->address, 1, asm_context->tokens.line);
       }
         else
       {
@@ -94,6 +98,10 @@ int parse_instruction_agc(AsmContext *asm_context, char *instr)
       return -1;
     }
   }
+
+  // If the operand was a forward reference in pass 1, use the biggest form
+  // of the instruction in both passes so the labels don't move.
+  const bool is_forward = asm_context->memory_read(asm_context->address) == 1;
 
   for (n = 0; table_agc[n].instr != NULL; n++)
   {
@@ -173,7 +181,7 @@ int parse_instruction_agc(AsmContext *asm_context, char *instr)
 
           if (check_range(asm_context, "index", operands[0].value, 0, 0xfff) == -1) { return -1; }
 
-          if ((operands[0].value & 0xc00) == 0)
+          if ((operands[0].value & 0xc00) == 0 && !is_forward)
           {
             opcode = table_agc[n].opcode | (operands[0].value & 0x3ff);
             add_bin16(asm_context, opcode, IS_OPCODE);
